@@ -122,7 +122,17 @@ def run(unit, R, tier, only=None):
         R.cls("mode:symm" if symm else "mode:square")
         pix = {nm: fx.pixvals(M[a], n, scale=q + 1) for q, (nm, a) in enumerate(zip(names, assign))}
         # the two dicts (pixels, bins) are given in OPPOSITE key orders: cells must be matched by name, not by position
-        frames = {nm: fx.frame(pix[nm], ("count",)) for nm in reversed(names)}
+        # every third assignment: a second value column, a float count column, an assembly name and metadata are passed along
+        rich = kk % 3 == 1
+        if rich:
+            R.cls("options:columns+dtypes+assembly+metadata")
+            frames = {nm: fx.frame(pix[nm], ("count", "score"), count_dtype=np.float64) for nm in reversed(names)}
+            for fr in frames.values():
+                fr["count"] = fr["count"] + 0.5
+            extra_kw = {"columns": ["count", "score"], "dtypes": {"count": np.float64, "score": np.float64}, "assembly": "asmS", "metadata": {"run": kk, "who": "ß"}}
+        else:
+            frames = {nm: fx.frame(pix[nm], ("count",)) for nm in reversed(names)}
+            extra_kw = {}
         order = {True: ["chrom", "start", "end", "cov"], "first": ["cov", "chrom", "start", "end"], "middle": ["chrom", "start", "cov", "end"]}
         if per_cell == "once+extra":
             # ONE common table that carries an extra column (placed between the coordinates): every cell must carry it
@@ -141,7 +151,7 @@ def run(unit, R, tier, only=None):
         p = scratch.fresh(".scool")
         try:
             try:
-                cooler.create_scool(p, barg, frames, symmetric_upper=symm, ordered=True)
+                cooler.create_scool(p, barg, frames, symmetric_upper=symm, ordered=True, **extra_kw)
             except Exception as e:
                 R.mismatch("create_scool-raises:" + type(e).__name__, inner, f"{e!s:.300}")
                 continue
@@ -177,9 +187,16 @@ def run(unit, R, tier, only=None):
                     clr = cooler.Cooler(uri)
                     df = clr.pixels()[:]
                     got = {(a, b): c for a, b, c in zip(df["bin1_id"].tolist(), df["bin2_id"].tolist(), df["count"].tolist())}
-                    want = {k: v["count"] for k, v in pix[nm].items()}
+                    want = {k: v["count"] + (0.5 if rich else 0) for k, v in pix[nm].items()}
                     if got != want or len(df) != len(want):
                         R.mismatch("cell-pixels!=its-input", ci, f"got={got} want={want}")
+                    if rich:
+                        gs = dict(zip(zip(df["bin1_id"].tolist(), df["bin2_id"].tolist()), df["score"].tolist())) if "score" in df.columns else None
+                        if gs != {k: v["score"] for k, v in pix[nm].items()}:
+                            R.mismatch("cell-extra-value-column!=its-input", ci, f"got={gs}")
+                        info = clr.info
+                        if info.get("genome-assembly") != "asmS" or info.get("metadata") != {"run": kk, "who": "ß"}:
+                            R.mismatch("cell-assembly-or-metadata!=given", ci, f"assembly={info.get('genome-assembly')!r} metadata={info.get('metadata')!r}")
                     bt = clr.bins()[:]
                     if list(zip(bt["chrom"].astype(str), bt["start"].tolist(), bt["end"].tolist())) != [tuple(b) for b in bins]:
                         R.mismatch("cell-bins!=common-table", ci, "")
